@@ -71,7 +71,7 @@ SeqSet(s) == {s[i] : i \in DOMAIN s}
 \*       incn     - <<ep,sid>> -> incarnation counter (open/accept events)
 MiscInit == [probe |-> [e \in EP |-> -1], thr |-> <<>>, cbs |-> <<>>, ackDue |-> [e \in EP |-> -1],
              incn |-> <<>>, fwdMax |-> [e \in EP |-> -1],
-             nack |-> [line |-> 0, to |-> -1, set |-> {}, hb |-> FALSE], teardown |-> FALSE, fuzzed |-> FALSE, abortSeen |-> [e \in EP |-> FALSE], shutAt |-> <<>>, shutRet |-> <<>>, closedInc |-> <<>>, wdl |-> <<>>, rdl |-> <<>>, reqs |-> <<>>, gen |-> <<>>, performed |-> {}, genAtRx |-> <<>>, rsGen |-> <<>>,
+             nack |-> [line |-> 0, to |-> -1, set |-> {}, hb |-> FALSE], teardown |-> FALSE, calls |-> <<>>, inj |-> <<>>, dead |-> [e \in EP |-> FALSE], abortRx |-> [e \in EP |-> FALSE], fuzzed |-> FALSE, abortSeen |-> [e \in EP |-> FALSE], shutAt |-> <<>>, shutRet |-> <<>>, closedInc |-> <<>>, wdl |-> <<>>, rdl |-> <<>>, reqs |-> <<>>, gen |-> <<>>, performed |-> {}, genAtRx |-> <<>>, rsGen |-> <<>>,
              pendReads |-> <<>>, hbCalls |-> <<>>, hbSeen |-> {}, txn |-> [e \in EP |-> 0]]
 
 InitVars ==
@@ -248,6 +248,7 @@ TxViol(p) ==
     \cup (IF HasKind(p, DataKinds) /\ p.len > Cfg(e).mtu THEN {V("C10_Mtu", <<e, p.pid, p.len>>)} ELSE {})
     \cup (IF HasKind(p, {"init"}) /\ (p.n # 1 \/ p.vtag # "zero") THEN {V("C12_InitAlone", <<e, p.pid>>)} ELSE {})
     \cup (IF ~p.ports THEN {V("C12_Ports", <<e, p.pid>>)} ELSE {})
+    \cup (IF misc.dead[e] THEN {V("C09_NoWriteAfterClose", <<e, "written", p.kinds>>)} ELSE {})
 
 TrTx ==
   /\ IsEv("tx")
@@ -504,7 +505,7 @@ TrRx ==
        \* C19: data handed to an established endpoint must be acknowledged within 200 ms
        /\ misc' = [(IF live /\ dataT # {} /\ sn[to] # NoSnap /\ sn[to].st = "established" /\ misc.ackDue[to] < 0
                    THEN [misc EXCEPT !.ackDue[to] = E.t + 200] ELSE misc)
-                  EXCEPT !.genAtRx = misc.gen, !.nack = [line |-> l, to |-> to, set |-> newly,
+                  EXCEPT !.abortRx[to] = @ \/ (live /\ HasKind(p, {"abort"})), !.genAtRx = misc.gen, !.nack = [line |-> l, to |-> to, set |-> newly,
                                    hb |-> live /\ ChunksOfKind(p, {"hback"}) # {}]]
        /\ viol' = viol \cup AckLate(E.t)
   /\ step' = E
@@ -739,7 +740,8 @@ TrSame ==
 (* Scenario end: print the violations                                      *)
 (***************************************************************************)
 EndViol(e) ==
-  (IF ~e.clean THEN {V("C09_NoLeak", <<e.leaks>>)} ELSE {})
+  (IF ~e.clean THEN {V("C09_NoLeak", <<e.leaks, IF "stacks" \in DOMAIN e THEN e.stacks[1] ELSE "">>)} ELSE {})
+  \cup {V("C09_CallsReturn", <<misc.calls[c].ep, misc.calls[c].op>>) : c \in DOMAIN misc.calls}
 
 TrEnd ==
   /\ IsEv("end")
@@ -893,7 +895,47 @@ TrAdvEnd ==
   /\ l' = l + 1
   /\ UNCHANGED <<scen, cfg, msg, order, reads, ch, hi, pkt, rcvd, skipTo, ackCum, ackGap, arw, outst, lastSack, sackEv, sn, step, newData, misc, rs, acc>>
 
-Passive == {"drop", "connclose", "txfail", "note"}
+(***************************************************************************)
+(* Lifecycle (C09): parked callers, injected Close / Abort / transport     *)
+(* failures, observation points                                            *)
+(***************************************************************************)
+TrCall ==
+  /\ IsEv("call")
+  /\ misc' = [misc EXCEPT !.calls = Upd(@, E.cid, E)]
+  /\ l' = l + 1
+  /\ UNCHANGED <<scen, cfg, msg, order, reads, ch, hi, pkt, rcvd, skipTo, ackCum, ackGap, arw, outst, lastSack, sackEv, sn, step, newData, rs, acc, viol>>
+\* bound for "promptly": the abort flush (2 x 200 ms) plus slack; everything else returns at once
+PromptBound == 1000
+TrRet ==
+  /\ IsEv("ret")
+  /\ misc' = [misc EXCEPT !.calls = [c \in DOMAIN @ \ {E.cid} |-> @[c]]]
+  /\ LET lastInj == IF E.ep \in DOMAIN misc.inj THEN misc.inj[E.ep] ELSE [t |-> -1, kind |-> "none"]
+     IN viol' = viol
+          \cup (IF lastInj.t >= 0 /\ E.t > lastInj.t + PromptBound THEN {V("C09_Prompt", <<E.ep, E.op, E.t - lastInj.t, lastInj.kind>>)} ELSE {})
+          \cup (IF E.op = "read" /\ misc.abortRx[E.ep] /\ ~E.reason THEN {V("C09_AbortCause", <<E.ep, E.op, E.err>>)} ELSE {})
+          \cup (IF E.op \in {"read", "accept", "pollread"} /\ lastInj.t >= 0 /\ E.ok THEN {V("C09_ErrorAfterTeardown", <<E.ep, E.op>>)} ELSE {})
+  /\ l' = l + 1
+  /\ UNCHANGED <<scen, cfg, msg, order, reads, ch, hi, pkt, rcvd, skipTo, ackCum, ackGap, arw, outst, lastSack, sackEv, sn, step, newData, rs, acc>>
+TrInject ==
+  /\ IsEv("inject")
+  /\ misc' = [misc EXCEPT !.inj = Upd(@, E.ep, IF E.kind = "repoll" /\ E.ep \in DOMAIN @ THEN [@[E.ep] EXCEPT !.t = E.t] ELSE E), !.teardown = TRUE]
+  /\ step' = E
+  /\ l' = l + 1
+  /\ UNCHANGED <<scen, cfg, msg, order, reads, ch, hi, pkt, rcvd, skipTo, ackCum, ackGap, arw, outst, lastSack, sackEv, sn, newData, rs, acc, viol>>
+\* observation point: after Close / Abort returned and the system was quiescent once, that endpoint is
+\* dead -- any later write attempt is a violation (TrTx / txfail)
+TrCrashObs ==
+  /\ IsEv("crashobs")
+  /\ misc' = [misc EXCEPT !.dead = [e \in EP |-> @[e] \/ (e \in DOMAIN misc.inj /\ (E.phase = 2 \/ misc.inj[e].kind \in {"close", "abort"}))]]
+  /\ l' = l + 1
+  /\ UNCHANGED <<scen, cfg, msg, order, reads, ch, hi, pkt, rcvd, skipTo, ackCum, ackGap, arw, outst, lastSack, sackEv, sn, step, newData, rs, acc, viol>>
+TrTxFail ==
+  /\ IsEv("txfail")
+  /\ viol' = viol \cup (IF misc.dead[E.ep] THEN {V("C09_NoWriteAfterClose", <<E.ep, "attempt", E.why>>)} ELSE {})
+  /\ l' = l + 1
+  /\ UNCHANGED <<scen, cfg, msg, order, reads, ch, hi, pkt, rcvd, skipTo, ackCum, ackGap, arw, outst, lastSack, sackEv, sn, step, newData, misc, rs, acc>>
+
+Passive == {"drop", "connclose", "note"}
 TrPassive ==
   /\ l <= Len(Trace) /\ Trace[l].ev \in Passive
   /\ step' = E
@@ -901,7 +943,7 @@ TrPassive ==
   /\ UNCHANGED <<scen, cfg, msg, order, reads, ch, hi, pkt, rcvd, skipTo, ackCum, ackGap, arw, outst, lastSack, sackEv, sn, newData, misc, rs, acc, viol>>
 
 Next == TrCfg \/ TrWCall \/ TrWrite \/ TrRead \/ TrTx \/ TrForge \/ TrChunkData \/ TrChunkSack \/ TrChunkFwd \/ TrChunkShutdown \/ TrChunkReconfig \/ TrChunkHb \/ TrChunkOther
-        \/ TrRx \/ TrSnap \/ TrSame \/ TrEnd \/ TrApi \/ TrCb \/ TrTick \/ TrExpect \/ TrDiff \/ TrHsFinal \/ TrHsSpecial \/ TrShutEnd \/ TrAdvEnd \/ TrPassive
+        \/ TrRx \/ TrSnap \/ TrSame \/ TrEnd \/ TrApi \/ TrCb \/ TrTick \/ TrExpect \/ TrDiff \/ TrHsFinal \/ TrHsSpecial \/ TrShutEnd \/ TrAdvEnd \/ TrCall \/ TrRet \/ TrInject \/ TrCrashObs \/ TrTxFail \/ TrPassive
 
 Spec == Init /\ [][Next]_vars
 
